@@ -236,7 +236,20 @@ def make_app(spec, log, body_hook=None):
     edits = {'before': {i: edit}, 'after': {j: edit}} with edit = ('rs',) | ('an',) | ('ro', k),
     shared = {key: ('r', is_err, rspec, body)} (module-level response objects of the application)"""
     from ombott import Ombott
-    app = Ombott(dict(catchall=bool(spec.get('catchall', True))))
+    if spec.get('default_app'):
+        # helpers like static_file / redirect work on the default application's request / response:
+        # serve on that application, stripped of what an earlier history registered on it
+        import importlib
+        om = importlib.import_module('ombott.ombott')
+        app = om.Globals.app
+        app.router = type(app.router)()
+        app._route_hooks = {}
+        app.error_handlers = {'404-hooks': {}}
+        for k in ('_hooks', 'to_route'):
+            app.__dict__.pop(k, None)
+        app.setup(dict(catchall=bool(spec.get('catchall', True))))
+    else:
+        app = Ombott(dict(catchall=bool(spec.get('catchall', True))))
     fns = {'before_request': [], 'after_request': []}
     fresh = {'before_request': len(spec['before']), 'after_request': len(spec['after'])}
     app._zoo_fns = fns
@@ -310,6 +323,33 @@ def make_app(spec, log, body_hook=None):
     return app
 
 
+def describe_response(obj):
+    """the value of an HTTPResponse / HTTPError object built by a framework helper (static_file,
+    redirect, abort), as an AST of the zoo: ('rx', is_err, code, line, headers, cookies, body)"""
+    import re
+    from ombott import HTTPError
+    hdrs = [(k, list(v) if isinstance(v, list) else [v]) for k, v in obj._headers.items()]
+    cks = [(c.key, c.value) for c in obj._cookies.values()] if obj._cookies else []
+    body = obj.body
+    if body is None:
+        b = ('f', 'none')
+    elif isinstance(body, str):
+        b = ('t', body) if body else ('f', 'str')
+    elif isinstance(body, bytes):
+        b = ('b', body) if body else ('f', 'bytes')
+    elif hasattr(body, 'read') and hasattr(body, 'name'):
+        with open(body.name, 'rb') as f:
+            b = ('fl', 900001, True, True, f.read())
+    else:
+        # _file_iter_range(fp, offset, n): the slice Content-Range announces
+        m = re.fullmatch(r'bytes (\d+)-(\d+)/(\d+)', obj._headers.get('Content-Range', ''))
+        fp = body.gi_frame.f_locals['fp']
+        with open(fp.name, 'rb') as f:
+            data = f.read()[int(m.group(1)):int(m.group(2)) + 1]
+        b = ('it', 900002, True, [('b', data)], 'gen')
+    return ('rx', isinstance(obj, HTTPError), obj._status_code, obj._status_line, hdrs, cks, b)
+
+
 def hooks_now(app):
     """registration numbers of the two hook lists, in list order"""
     out = []
@@ -338,6 +378,12 @@ def install_route(app, log, req, cur):
                         said = pre(app, kw)
                         if isinstance(said, str):
                             return said            # the handler answers with what it read
+                        if isinstance(said, tuple) and said[0] == 'obj':
+                            # the handler answers with the object a framework helper built
+                            cur['described'] = (said[1], describe_response(said[2]))
+                            if said[1] == 'rr':
+                                raise said[2]
+                            return said[2]
                     return finish(log, res, app)
                 except Exception as e:
                     from ombott import HTTPResponse
@@ -494,6 +540,7 @@ def serve_one(app, log, cur, req, body=b'', extra=None, pre=None, validate=False
     del env
     return dict(log=list(log), starts=starts, data=data, shape=shape, cl=w.inserted, escaped=escaped,
                 complaints=complaints, urlrepr=urlrepr, urlrepr_arrival=urlrepr_arrival, hooks=hooks_now(app),
+                described=cur.pop('described', None),
                 produced=set(getattr(log, 'produced', ())), failed=getattr(log, 'failed', False))
 
 
@@ -566,6 +613,16 @@ def ser_item(it):
 
 def ser_out(o):
     k = o[0]
+    if k == 'rx':
+        toks = ['r', b01(o[1]), str(o[2]), hs(o[3]), str(len(o[4]))]
+        for name, vals in o[4]:
+            toks += [hs(name), str(len(vals))]
+            for v in vals:
+                toks += ['g', hs(v)]
+        toks.append(str(len(o[5])))
+        for ck, cv in o[5]:
+            toks += [hs(ck), hs(cv)]
+        return toks + ser_out(o[6])
     if k == 'sh':
         return ser_out(_SHARED[o[1]])      # the model sees the object's value
     if k == 'f':
@@ -701,7 +758,7 @@ def _eff_may_fail(e):
 
 def _out_exc_free(o):
     k = o[0]
-    if k in ('f', 't', 'b', 'fl', 'sh'):
+    if k in ('f', 't', 'b', 'fl', 'sh', 'rx'):
         return True
     if k == 'r':
         return _out_exc_free(o[3])
